@@ -6,7 +6,7 @@ import ast
 
 from .. import oracles as O
 from ..fold import Scope, dotted, src
-from .common import (ctx, ff_for, find_calls, inside_with, must_pass, node_calls, own_nodes, path_text)
+from .common import (ctx, is_observational_stmt, ff_for, find_calls, inside_with, must_pass, node_calls, own_nodes, path_text)
 
 V = "canopen/variable.py"
 SB = "canopen/sdo/base.py"
@@ -159,7 +159,7 @@ def run(chk):
     chk.check(any(src(n) == "self.send_lock = threading.Lock()" for n in own_nodes(ni.node) if isinstance(n, ast.Assign)), "R4", f"{NET}:Network.__init__ | one lock per network", ni.loc(), "")
     orsp = repo.func(CL, "SdoClient.on_response", "C03.R4")
     chk.saw(orsp)
-    body = [src(s_) for s_ in orsp.node.body if not (isinstance(s_, ast.Expr) and isinstance(s_.value, ast.Constant))]
+    body = [src(s_) for s_ in orsp.node.body if not (isinstance(s_, ast.Expr) and isinstance(s_.value, ast.Constant)) and not is_observational_stmt(repo, s_)]
     chk.check(body == ["self.responses.put(bytes(data))"], "R4", f"{CL}:SdoClient.on_response | only queues a copy of the frame", orsp.loc(), f"{body}")
     ci = repo.func(CL, "SdoClient.__init__", "C03.R4")
     chk.check(any(src(n) == "self.responses = queue.Queue()" for n in own_nodes(ci.node) if isinstance(n, ast.Assign)), "R4", f"{CL}:SdoClient.__init__ | queue per client", ci.loc(), "")
